@@ -12,13 +12,13 @@ package main
 
 import (
 	"bytes"
-	"fmt"
-	"strings"
 	"encoding/hex"
+	"fmt"
 	"os"
 	"path/filepath"
 	"reflect"
 	"sort"
+	"strings"
 
 	"github.com/tonkeeper/tongo/boc"
 	"github.com/tonkeeper/tongo/tlb"
@@ -474,7 +474,61 @@ func c04HasDict(d *tlbdesc.Desc) bool {
 	return false
 }
 
+// dictionaries over key widths around the byte boundaries (the key order is a bit order)
+var c04DictTypes = []reflect.Type{
+	reflect.TypeOf(struct {
+		D tlb.HashmapE[tlb.Uint1, tlb.Uint32]
+	}{}),
+	reflect.TypeOf(struct {
+		D tlb.HashmapE[tlb.Uint7, tlb.Uint32]
+	}{}),
+	reflect.TypeOf(struct {
+		D tlb.HashmapE[tlb.Uint8, tlb.Uint32]
+	}{}),
+	reflect.TypeOf(struct {
+		D tlb.HashmapE[tlb.Uint9, tlb.Uint32]
+	}{}),
+	reflect.TypeOf(struct {
+		D tlb.HashmapE[tlb.Uint15, tlb.Uint32]
+	}{}),
+	reflect.TypeOf(struct {
+		D tlb.HashmapE[tlb.Uint16, tlb.Uint32]
+	}{}),
+	reflect.TypeOf(struct {
+		D tlb.HashmapE[tlb.Uint17, tlb.Uint32]
+	}{}),
+	reflect.TypeOf(struct {
+		D tlb.HashmapE[tlb.Uint23, tlb.Uint32]
+	}{}),
+	reflect.TypeOf(struct {
+		D tlb.HashmapE[tlb.Uint31, tlb.Uint32]
+	}{}),
+	reflect.TypeOf(struct {
+		D tlb.HashmapE[tlb.Uint32, tlb.VarUInteger32]
+	}{}),
+	reflect.TypeOf(struct {
+		D tlb.HashmapE[tlb.Uint33, tlb.Uint32]
+	}{}),
+	reflect.TypeOf(struct {
+		D tlb.HashmapE[tlb.Uint63, tlb.Uint32]
+	}{}),
+	reflect.TypeOf(struct {
+		D tlb.HashmapE[tlb.Uint64, tlb.Uint32]
+	}{}),
+}
+
 func c04DictOrder(c *Ctx) {
+	var cts []*c03Type
+	for _, t := range c04DictTypes {
+		d := tlbdesc.Describe(t, "")
+		if d.K == tlbdesc.KOpaque {
+			continue
+		}
+		cts = append(cts, &c03Type{name: "tlb." + t.Field(0).Type.Name(), t: t, d: d, class: tlbdesc.ClassDescribed})
+	}
+	for _, ct := range cts {
+		c04DictOrderType(c, ct, c.Scale(150, 1500))
+	}
 	for _, n := range c03Names {
 		ct := c03Types[n]
 		if ct.ext || !c04HasDict(ct.d) {
@@ -485,6 +539,12 @@ func c04DictOrder(c *Ctx) {
 		case "tlb.Transaction", "tlb.CurrencyCollection", "tlb.StateInit", "tlb.ExtraCurrencyCollection", "wallet.DataV4", "wallet.DataHighloadV2":
 			k = c.Scale(80, 1000)
 		}
+		c04DictOrderType(c, ct, k)
+	}
+}
+
+func c04DictOrderType(c *Ctx, ct *c03Type, k int) {
+	{
 		for i := 0; i < k; i++ {
 			pv := reflect.New(ct.t)
 			v := ct.d.Rand(c.R, pv.Elem(), 0)
